@@ -201,9 +201,12 @@ def r4(fx):
     order = ['numeric', 'alphanumeric', 'byte', 'kanji', 'hanzi']
     rank = {m: i for i, m in enumerate(order)}
     hz = C(fx, 'HANZI_ENCODING')
-    for req in [None] + order:
-        for det in ('numeric', 'alphanumeric', 'kanji', 'byte'):
-            for length in (4, 5):
+    # the second content is text whose str methods answer "digits" although its bytes are not: the mode is detected on the bytes
+    combos = [(req, det, length, '<content>') for req in [None] + order for det in ('numeric', 'alphanumeric', 'kanji', 'byte') for length in (4, 5)]
+    combos += [(req, det, 4, '\u0663\u0664\uff11\u00b2') for req in (None, 'numeric', 'alphanumeric') for det in ('kanji', 'byte')]
+    for req, det, length, content in combos:
+        if True:
+            if True:
                 calls = {'find_mode': 0, 'enc': None}
 
                 def d2b(data, encoding, length=length):
@@ -214,7 +217,7 @@ def r4(fx):
                     calls['find_mode'] += 1
                     return md[det]
                 genv = encoder_env(fx.forest, it, data_to_bytes=d2b, find_mode=fm)
-                e = dict(genv, data='<content>', mode=None if req is None else md[req], encoding=None)
+                e = dict(genv, data=content, mode=None if req is None else md[req], encoding=None)
                 try:
                     it.block(head, e)
                     got = inv.get(e['segment_mode'], e['segment_mode'])
@@ -239,7 +242,7 @@ def r4(fx):
                     ok = ok and calls['find_mode'] == 0
                 if req == 'hanzi':
                     ok = ok and calls['enc'] == hz
-                yield ob(f'requested {req}, detected {det}, {length} bytes', ok, fn,
+                yield ob(f'requested {req}, detected {det}, {length} bytes' + ('' if content == '<content>' else ' (text of non-ASCII digits)'), ok, fn,
                          got=f'{got} (encoding {enc}, find_mode calls {calls["find_mode"]}, codec {calls["enc"]})', want=want)
 
 
